@@ -68,7 +68,10 @@ def ref_outcomes(ref, assign, axioms=None, limit=4096):
             if at is True or at is False:
                 return at == p if p else (not at)
             if at not in a:
-                raise Need(at)
+                d = derive(at, a)
+                if d is None:
+                    raise Need(at)
+                a[at] = d
             return a[at] if p else (not a[at])
         try:
             outs.append((a, ref(oracle)))
@@ -79,6 +82,25 @@ def ref_outcomes(ref, assign, axioms=None, limit=4096):
                 if consistent(b):
                     todo.append(b)
     return outs
+
+
+def derive(at, a):
+    """truth of an atom that follows from the assignment although it is not literally in it:
+    Some(x) == y   <=>   y is Some  and  x == y!Some      (either orientation of the equalities)"""
+    if at[0] == "eq":
+        for l, r in ((at[1], at[2]), (at[2], at[1])):
+            if l[0] == "adt" and l[1] == "Option" and l[2] == "Some" and r[0] != "adt":
+                x = l[3][0][1]
+                is_some = a.get(("is", r, "Some"))
+                if is_some is False:
+                    return False
+                if is_some is True:
+                    pay = S.mk_payload(r, "Some", "0")
+                    for cand in (("eq", x, pay), ("eq", pay, x)):
+                        c, pol = canon_atom(cand)
+                        if c in a:
+                            return a[c] if pol else (not a[c])
+    return None
 
 
 def consistent(a):
